@@ -231,6 +231,23 @@ def runS (m : Mode) (c : Cfg) (chunks : List (List Cell × List Nat)) (endRoom :
 def inChunks (m : Mode) (chunks : List (List Nat × List Nat)) : List (List Cell × List Nat) :=
   chunks.map fun x => (x.1.map (inC m), x.2)
 
+/-- the same front end used through the other entry point (`fe_process_int16` / `fe_process_float32`) -/
+def Mode.withEnc (m : Mode) (e : Enc) : Mode := { m with enc := e }
+
+/-- chunks with a per-chunk encoding: all calls made for a chunk go through that chunk's entry
+point, but the two entry points may alternate within one utterance -/
+def feedAllX (m : Mode) (c : Cfg) : Fe Cell → List (Enc × List Nat × List Nat) → Option (RunResult Cell)
+  | fe, [] => some { fe := fe, calls := [], left := 0 }
+  | fe, (e, buf, limits) :: rest =>
+    (feedChunkS (m.withEnc e) c fe (buf.map (inC (m.withEnc e))) limits).bind fun (fe', logs, left) =>
+    (feedAllX m c fe' rest).map fun r => { r with calls := logs ++ r.calls, left := left.length + r.left }
+
+/-- a whole utterance with a per-chunk encoding -/
+def runX (m : Mode) (c : Cfg) (chunks : List (Enc × List Nat × List Nat)) (endRoom : Nat) :
+    Option (RunResult Cell × Nat) :=
+  (feedAllX m c start chunks).bind fun r =>
+  (finishS m c r.fe endRoom).map fun (fe', n) => ({ r with fe := fe' }, n)
+
 /-- the tagged state that corresponds to an index state: overflow buffer in **input** order (float
 units, even swap count, no dither), `fe->spch`, the pre-emphasis prior and every emitted window in
 **host** order (int16 units, swap count odd iff `fe->swap`, through the dither step once) -/
